@@ -281,7 +281,13 @@ func runPair(p Pair) result { //nolint:cyclop,gocognit
 					}
 				}
 				time.Sleep(2 * interval) // all of them live through a tick or two
-				for _, c := range batch {
+				for j, c := range batch {
+					if j%2 == 1 { // the caller kept only the SSRC: it is what identifies the stream
+						ic.UnbindLocalStream(&interceptor.StreamInfo{SSRC: c.li.SSRC})
+						ic.UnbindRemoteStream(&interceptor.StreamInfo{SSRC: c.ri.SSRC})
+
+						continue
+					}
 					ic.UnbindLocalStream(c.li)
 					ic.UnbindRemoteStream(c.ri)
 				}
